@@ -1,9 +1,10 @@
 #!/bin/bash
 # seedtest.sh <PROP> <n> [<check id, default PROP>]: confirm a seeded change and run the check against it.
-# Uses the scratch worktree /tmp/seed_<PROP> (never /repo); results in /verif/seeded/<PROP>_<n>/.
+# Uses the scratch worktree /tmp/${SEEDPFX:-seed}_<PROP> (never /repo); results in /verif/seeded/<PROP>_${SEEDTAG}<n>/.
 set -u
 P="$1"; N="$2"; CHK="${3:-$1}"
-WT=/tmp/seed_$P; OUT=/tmp/seed_${P}_out; DST=/verif/seeded/${P}_$N
+PFX="${SEEDPFX:-seed}"; TAG="${SEEDTAG:-}"
+WT=/tmp/${PFX}_$P; OUT=/tmp/${PFX}_${P}_out; DST=/verif/seeded/${P}_${TAG}$N
 git -C $WT checkout -q -- . ; git -C $WT checkout -q --detach main
 mkdir -p $DST
 cp $OUT/patch$N.diff $DST/patch.diff; cp $OUT/demo$N.py $DST/demo.py; cp $OUT/meta$N.json $DST/meta_agent.json
